@@ -1,7 +1,7 @@
 (* C06 — IPM file round trip: messages written are the messages read back; instances are independent. *)
 From Coq Require Import List Arith NArith ZArith.
 Require Import CU.model.Prim CU.model.Types CU.model.Codec CU.model.Block CU.model.Vbs CU.model.Iso CU.model.Ipm.
-Require Import CU.spec.FramingSpec CU.spec.IsoSpec CU.proofs.IpmProofs CU.proofs.IpmRoundtrip.
+Require Import CU.spec.FramingSpec CU.spec.IsoSpec CU.proofs.IpmProofs.
 Import ListNotations.
 
 (* a decoded record agrees with the message written: the two clauses of C01 *)
